@@ -44,7 +44,7 @@ def leaf_type(leaf):
     k = leaf[0]
     if k == "reg":
         return REGKIND[leaf[1]]
-    if k in ("loc", "pkt", "arr"):
+    if k in ("loc", "pkt", "arr", "idx"):
         return FMT[leaf[1]]
     return None
 
@@ -81,7 +81,7 @@ def values_for(size, signed, seed, small=False):
 def leaves_of(tree, out=None):
     if out is None:
         out = []
-    if tree[0] in ("reg", "loc", "pkt", "arr", "const"):
+    if tree[0] in ("reg", "loc", "pkt", "arr", "idx", "const"):
         out.append(tree)
     elif tree[0] in ("neg", "abs"):
         leaves_of(tree[1], out)
@@ -108,7 +108,7 @@ def pure_unsigned(tree):
     """no signed leaf, no negative constant, no negation/subtraction"""
     if tree[0] == "const":
         return tree[1] >= 0
-    if tree[0] in ("reg", "loc", "pkt", "arr"):
+    if tree[0] in ("reg", "loc", "pkt", "arr", "idx"):
         return not leaf_type(tree)[1]
     if tree[0] in ("neg", "abs"):
         return False
@@ -139,7 +139,7 @@ def evaluate(tree, env, W, strict):
     k = tree[0]
     if k == "const":
         return {tree[1]}
-    if k in ("reg", "loc", "pkt", "arr"):
+    if k in ("reg", "loc", "pkt", "arr", "idx"):
         return {env[tree]}
     if k == "neg":
         return {-v for v in evaluate(tree[1], env, W, strict)}
@@ -264,6 +264,7 @@ class Prog:
         self.regno = {}
         free = list(self.REGS)
         self.pktoff = {}
+        self.idxreg = {}
         for i, l in enumerate(leaves):
             if l[0] == "reg":
                 no = free.pop(0)
@@ -275,6 +276,14 @@ class Prog:
             elif l[0] == "pkt":
                 self.pktoff[l] = 8 * i
                 b.plant_mem(9, 8 * i, FMT[l[1]][0], i)
+            elif l[0] == "idx":
+                # memory at an address computed at run time (base register
+                # + offset register): not the register+constant fast path
+                no = free.pop()
+                self.idxreg[l] = no
+                b.plant_mem(9, 8 * i, FMT[l[1]][0], i)
+                b.raw(0xb7, no, 0, 0, 8 * i)
+                e.owners.add(no)
         expr = self.mk(tree)
         if dest[0] == "reg":
             if alias is not None:
@@ -312,6 +321,8 @@ class Prog:
             return getattr(e, self.names[t])
         if k == "pkt":
             return getattr(e, "m" + t[1])[e.r9 + self.pktoff[t]]
+        if k == "idx":
+            return getattr(e, "m" + t[1])[e.r9 + e.r[self.idxreg[t]]]
         if k == "neg":
             return -self.mk(t[1])
         if k == "abs":
@@ -375,7 +386,7 @@ def patch_sx_moves(insns, swregs):
 def has_signed(tree):
     if tree[0] == "const":
         return tree[1] < 0
-    if tree[0] in ("reg", "loc", "pkt", "arr"):
+    if tree[0] in ("reg", "loc", "pkt", "arr", "idx"):
         return leaf_type(tree)[1]
     if tree[0] == "neg":
         return True
@@ -498,7 +509,7 @@ def shape(tree):
     if tree[0] == "const":
         return ("const", "neg" if tree[1] < 0 else "big" if tree[1] >= 2 ** 31
                 else "small")
-    if tree[0] in ("reg", "loc", "pkt", "arr"):
+    if tree[0] in ("reg", "loc", "pkt", "arr", "idx"):
         return tree
     return (tree[0],) + tuple(shape(t) for t in tree[1:])
 
@@ -519,7 +530,7 @@ def vector_fn(seed, small):
 def alphabet(ctx):
     if ctx.quick:
         leaves = [("reg", k) for k in ("r", "sr", "w", "sw")] + \
-            [("loc", f) for f in "BhiQq"] + [("pkt", "H")]
+            [("loc", f) for f in "BhiQq"] + [("pkt", "H"), ("idx", "h")]
         consts = [1, -1, 7, 1 << 31, 0x1234567890, -(1 << 63)]
         dests = [("reg", "r"), ("reg", "sr"), ("reg", "w"), ("reg", "sw"),
                  ("loc", "h"), ("loc", "I"), ("loc", "q"), ("loc", "B"),
@@ -527,7 +538,7 @@ def alphabet(ctx):
     else:
         leaves = [("reg", k) for k in ("r", "sr", "w", "sw")] + \
             [("loc", f) for f in "BbHhIiQq"] + \
-            [("pkt", f) for f in "bHiQ"]
+            [("pkt", f) for f in "bHiQ"] + [("idx", f) for f in "bhiQ"]
         consts = [0, 1, -1, 7, (1 << 31) - 1, -(1 << 31), 1 << 31,
                   (1 << 32) - 1, 0x1234567890, (1 << 63) - 1, -(1 << 63),
                   (1 << 64) - 1, 31, 63]
